@@ -576,7 +576,11 @@ class _RequiredForecastingHorizonMixin:
         else:
             fh = check_fh(fh)
             if self.is_fitted:
-                if not np.array_equal(fh, self._fh):
+                # (the same numbers mean other time points when one horizon is
+                # relative and the other absolute)
+                if fh.is_relative != self._fh.is_relative or not np.array_equal(
+                    fh, self._fh
+                ):
                     # raise error if existing fh and new one don't match
                     raise ValueError(
                         "A different forecasting horizon `fh` has been "
